@@ -25,7 +25,7 @@ type Profile struct {
 }
 
 func weighted(w map[string]int) []string {
-	order := []string{"resolve", "reserr", "state", "pick", "done", "adv", "failnew", "cancel", "allready", "bindflow", "decall", "readyrepl", "staledown", "emptypool", "saturate", "refreshcycle", "stalede", "affswap", "fbflow", "bindacross"}
+	order := []string{"resolve", "reserr", "state", "pick", "done", "adv", "failnew", "cancel", "allready", "bindflow", "decall", "readyrepl", "staledown", "emptypool", "saturate", "refreshcycle", "stalede", "affswap", "fbflow", "bindacross", "growmax"}
 	var out []string
 	for _, k := range order {
 		for i := 0; i < w[k]; i++ {
@@ -231,6 +231,22 @@ func genStep(p *Profile, cfg *Config) *rapid.Generator[[]Op] {
 					Op{K: "pick", M: 2, Key: key}, Op{K: "pick", M: 2, Key: key})
 			}
 			return ops
+		case "growmax":
+			// keep calls open and bring every new channel up until the pool cannot grow any more
+			per := cfg.WM
+			if per < 1 || per > 3 {
+				per = 2
+			}
+			var ops []Op
+			for round := 0; round < 7; round++ {
+				for j := 0; j < per; j++ {
+					ops = append(ops, Op{K: "pick", M: 0})
+				}
+				for i := 0; i < 8; i++ {
+					ops = append(ops, Op{K: "state", Idx: i, St: 2})
+				}
+			}
+			return ops
 		case "saturate":
 			n := rapid.IntRange(2, 8).Draw(t, "n")
 			var ops []Op
@@ -300,7 +316,7 @@ func GenCase(t *rapid.T, p *Profile) *Case {
 	return c
 }
 
-var allMethods = []int{0, 0, 1, 1, 2, 2, 2, 3, 4, 5, 5, 6, 9}
+var allMethods = []int{0, 0, 1, 1, 2, 2, 2, 3, 4, 5, 5, 6, 9, 10, 11, 12}
 var hostileMethods = []int{0, 1, 2, 3, 4, 5, 6, 7, 8, 9}
 
 // Profiles by name.
@@ -310,7 +326,7 @@ var Profiles = map[string]*Profile{
 	"load": {Name: "load", Min: [2]int{1, 5}, Max: [2]int{1, 5}, WM: []int{1, 2, 3, 4, 5}, Fallback: 20, UdMs: []int64{0, 7, 100}, UdCalls: []int{1, 2}, RR: 15, Strict: 50,
 		W: map[string]int{"resolve": 1, "state": 8, "pick": 25, "done": 22, "adv": 2, "allready": 3, "bindflow": 3, "decall": 6, "readyrepl": 6, "staledown": 3, "saturate": 3, "refreshcycle": 3, "stalede": 2}, Methods: []int{0, 0, 0, 0, 2, 2, 9, 1, 3}},
 	"size": {Name: "size", Wild: true, WM: []int{1}, Fallback: 10, UdMs: []int64{0, 7}, UdCalls: []int{1}, Strict: 50, Shutdown: true,
-		W: map[string]int{"resolve": 3, "state": 10, "pick": 20, "done": 6, "adv": 1, "failnew": 2, "allready": 5, "decall": 3, "readyrepl": 3, "emptypool": 1, "saturate": 6}, Methods: []int{0, 0, 0, 2, 9}, NoFirst: 5},
+		W: map[string]int{"resolve": 3, "state": 10, "pick": 20, "done": 6, "adv": 1, "failnew": 2, "allready": 5, "decall": 3, "readyrepl": 3, "emptypool": 1, "saturate": 6, "growmax": 2}, Methods: []int{0, 0, 0, 2, 9}, NoFirst: 5},
 	"states": {Name: "states", Min: [2]int{1, 4}, Max: [2]int{1, 5}, WM: []int{1, 2, 100}, Fallback: 30, UdMs: []int64{7, 100}, UdCalls: []int{1}, Strict: 50, Shutdown: true, Hostile: true,
 		W: map[string]int{"resolve": 1, "state": 30, "pick": 8, "done": 4, "adv": 1, "allready": 2, "decall": 8, "readyrepl": 8, "staledown": 4, "refreshcycle": 3}, Methods: allMethods},
 	"hostile": {Name: "hostile", Wild: true, WM: []int{1}, Fallback: 50, UdMs: []int64{0, 1, 7}, UdCalls: []int{0, 1}, RR: 25, Strict: 50, Shutdown: true, Hostile: true, CfgOps: true, NoFirst: 20,
@@ -324,5 +340,5 @@ var Profiles = map[string]*Profile{
 	"addresses": {Name: "addresses", Min: [2]int{1, 3}, Max: [2]int{1, 4}, WM: []int{1, 2}, UdMs: []int64{7, 100}, UdCalls: []int{1}, Strict: 30, Shutdown: true,
 		W: map[string]int{"resolve": 12, "reserr": 4, "state": 6, "pick": 10, "done": 5, "adv": 1, "allready": 3, "decall": 12, "readyrepl": 8, "saturate": 5, "failnew": 1, "refreshcycle": 4}, Methods: []int{0, 0, 2}},
 	"cfg": {Name: "cfg", Wild: true, WM: []int{1}, Fallback: 30, UdMs: []int64{0, 7}, UdCalls: []int{0, 1}, RR: 20, Strict: 30, CfgOps: true, NoFirst: 30,
-		W: map[string]int{"resolve": 5, "state": 8, "pick": 22, "done": 8, "adv": 1, "allready": 5, "bindflow": 8, "decall": 2, "readyrepl": 2, "saturate": 8}, Methods: hostileMethods},
+		W: map[string]int{"resolve": 5, "state": 8, "pick": 22, "done": 8, "adv": 1, "allready": 5, "bindflow": 8, "decall": 2, "readyrepl": 2, "saturate": 8, "growmax": 4}, Methods: append(append([]int{}, hostileMethods...), 10, 10, 11, 12)},
 }
